@@ -240,6 +240,15 @@ deriving Repr, DecidableEq
 	b.WriteString("/-- every occurrence of `.DryRun` (packages ., callbacks, migrator) and how it is read -/\ndef dryReads : List DryRead := [\n" + strings.Join(reads, ",\n") + "\n]\n\n")
 	b.WriteString("/-- outside package callbacks: (function, callee, receiver) of every call dominated by a DryRun atom -/\ndef dryRootGuarded : List (String × String × String) := [\n" + strings.Join(rootGuarded, ",\n") + "\n]\n\n")
 
+	// ---- non-call effects dominated by a DryRun test (package callbacks, functions of the table) -----
+	var effs []string
+	for _, n := range names {
+		for _, e := range c19Effects(cbFns[n].decl.Body) {
+			effs = append(effs, fmt.Sprintf("  (%s, %s, %s)", lstr(n), lstr(e[0]), lstr(e[1])))
+		}
+	}
+	b.WriteString("/-- (function, kind, text): assignments (left sides), inc/dec, break/continue/goto, send and go statements that are\n    executed depending on a DryRun test (inside either branch of an `if` on DryRun, or after an early return on it) -/\ndef dryEffects : List (String × String × String) := [\n" + strings.Join(effs, ",\n") + "\n]\n\n")
+
 	// ---- transaction control call sites ---------------------------------------------------------
 	txm := map[string]bool{"Transaction": true, "Begin": true, "BeginTx": true, "Commit": true, "Rollback": true, "SavePoint": true, "RollbackTo": true}
 	var sites []string
@@ -370,5 +379,140 @@ func c19ReadKinds(body *ast.BlockStmt) []string {
 		}
 		return true
 	})
+	return out
+}
+
+// c19Effects lists the non-call effect statements whose execution depends on a DryRun test.
+func c19Effects(body *ast.BlockStmt) [][2]string {
+	aliases := map[string]bool{}
+	mentions := func(e ast.Expr) bool {
+		found := false
+		ast.Inspect(e, func(n ast.Node) bool {
+			switch x := n.(type) {
+			case *ast.SelectorExpr:
+				if x.Sel.Name == "DryRun" {
+					found = true
+				}
+			case *ast.Ident:
+				if aliases[x.Name] {
+					found = true
+				}
+			}
+			return true
+		})
+		return found
+	}
+	var out [][2]string
+	var block func(stmts []ast.Stmt, dry bool)
+	var stmt func(s ast.Stmt, dry bool)
+	lits := func(n ast.Node, dry bool) {
+		if n == nil {
+			return
+		}
+		ast.Inspect(n, func(m ast.Node) bool {
+			if fl, ok := m.(*ast.FuncLit); ok {
+				block(fl.Body.List, dry)
+				return false
+			}
+			return true
+		})
+	}
+	block = func(stmts []ast.Stmt, dry bool) {
+		for _, s := range stmts {
+			stmt(s, dry)
+			if is, ok := s.(*ast.IfStmt); ok && is.Else == nil && endsWithReturn(is.Body) && mentions(is.Cond) {
+				dry = true
+			}
+		}
+	}
+	stmt = func(s ast.Stmt, dry bool) {
+		switch x := s.(type) {
+		case nil:
+		case *ast.BlockStmt:
+			block(x.List, dry)
+		case *ast.IfStmt:
+			stmt(x.Init, dry)
+			d := dry || mentions(x.Cond)
+			block(x.Body.List, d)
+			if x.Else != nil {
+				stmt(x.Else, d)
+			}
+		case *ast.AssignStmt:
+			if x.Tok == token.DEFINE {
+				for _, r := range x.Rhs {
+					if mentions(r) && len(x.Lhs) == 1 {
+						if id, ok := x.Lhs[0].(*ast.Ident); ok {
+							aliases[id.Name] = true
+						}
+					}
+				}
+			} else if dry {
+				for _, l := range x.Lhs {
+					if id, ok := l.(*ast.Ident); ok && id.Name == "_" {
+						continue
+					}
+					out = append(out, [2]string{"assign", src(l)})
+				}
+			}
+			for _, r := range x.Rhs {
+				lits(r, dry)
+			}
+		case *ast.IncDecStmt:
+			if dry {
+				out = append(out, [2]string{"incdec", src(x.X)})
+			}
+		case *ast.BranchStmt:
+			if dry {
+				out = append(out, [2]string{"branch", x.Tok.String()})
+			}
+		case *ast.SendStmt:
+			if dry {
+				out = append(out, [2]string{"send", src(x.Chan)})
+			}
+		case *ast.GoStmt:
+			if dry {
+				out = append(out, [2]string{"go", src(x.Call.Fun)})
+			}
+			lits(x.Call, dry)
+		case *ast.DeferStmt:
+			lits(x.Call, dry)
+		case *ast.ExprStmt:
+			lits(x.X, dry)
+		case *ast.ReturnStmt:
+			for _, r := range x.Results {
+				lits(r, dry)
+			}
+		case *ast.ForStmt:
+			stmt(x.Init, dry)
+			stmt(x.Post, dry)
+			block(x.Body.List, dry)
+		case *ast.RangeStmt:
+			block(x.Body.List, dry)
+		case *ast.SwitchStmt:
+			stmt(x.Init, dry)
+			d := dry || (x.Tag != nil && mentions(x.Tag))
+			for _, c := range x.Body.List {
+				cc := c.(*ast.CaseClause)
+				dd := d
+				for _, e := range cc.List {
+					if mentions(e) {
+						dd = true
+					}
+				}
+				block(cc.Body, dd)
+			}
+		case *ast.TypeSwitchStmt:
+			for _, c := range x.Body.List {
+				block(c.(*ast.CaseClause).Body, dry)
+			}
+		case *ast.SelectStmt:
+			for _, c := range x.Body.List {
+				block(c.(*ast.CommClause).Body, dry)
+			}
+		case *ast.LabeledStmt:
+			stmt(x.Stmt, dry)
+		}
+	}
+	block(body.List, false)
 	return out
 }
